@@ -101,8 +101,25 @@ func Harness_C21_bytes() {
 			buf = msgp.AppendInt64(buf, 7)
 		}
 	}
-	p := &Payload{config: verifIDConfig()}
-	rest, err := p.UnmarshalMsg(buf)
+	// through the plain decoder, or through the ingestion decoder that also memoises the sampler's
+	// key fields - which may name the very fields that carry the IDs (a rule on trace.parent_id,
+	// a FieldList with traceId)
+	cfg := verifIDConfig()
+	p := &Payload{config: cfg}
+	var rest []byte
+	var err error
+	switch zz.Choose("decoder", 3) {
+	case 0:
+		rest, err = p.UnmarshalMsg(buf)
+	case 1:
+		cfg.Samplers = map[string]*config.V2SamplerChoice{"env": {DynamicSampler: &config.DynamicSamplerConfig{SampleRate: 1, FieldList: []string{"trace.parent_id"}}}}
+		cu := NewCoreFieldsUnmarshaler(CoreFieldsUnmarshalerOptions{Config: cfg, APIKey: "k", Env: "env", Dataset: "d"})
+		rest, err = cu.UnmarshalMsgpFirstEvent(buf, p)
+	default:
+		cfg.Samplers = map[string]*config.V2SamplerChoice{"env": {DynamicSampler: &config.DynamicSamplerConfig{SampleRate: 1, FieldList: []string{"traceId", "parentId", "other"}}}}
+		cu := NewCoreFieldsUnmarshaler(CoreFieldsUnmarshalerOptions{Config: cfg, APIKey: "k", Env: "env", Dataset: "d"})
+		rest, err = cu.UnmarshalMsgpFirstEvent(buf, p)
+	}
 	zz.Assert(err == nil, "well-formed payload is accepted")
 	zz.Assert(len(rest) == 0, "the whole map is consumed")
 	verifIDCheck(p, es, "msgpack")
